@@ -788,7 +788,7 @@ def gen_c08(rng, t):
         slots, maxpdu = dec_prelude(rng, c, nbuf=rng.range(1, 4))
         pool = []
         for _ in range(rng.range(2, 5)):
-            pool.extend(valid_traffic(rng, max(maxpdu, 8), fids=(0, 1, 2, 1 + slots, 2 + slots)))
+            pool.extend(valid_traffic(rng, max(maxpdu, 8), fids=(0, 1, 2, (1 + slots) % 256, (2 + slots) % 256)))
         for _ in range(rng.range(5, 30)):
             r = rng.below(10)
             p = rng.choice(pool) if pool else b"\x00\x00"
